@@ -1,10 +1,12 @@
 import HexProofs.Manager.HA
+import HexProofs.Manager2.HATf
+import HexProofs.Lib.IntInst
 import HexProps.C03
 /-
 C11 – Heikin-Ashi conversion follows its recurrence under every append schedule.
 Proved for every float carrier `F`.  Full strength without a timeframe (any schedule, starting
-from zero, one or many candles); the combination with a collapsing timeframe is stated as
-`with_timeframe_FULL` and currently covered by correspondence + search only.
+from zero, one or many candles) – `schedule` – and with a collapsing timeframe – `schedule_tf`,
+`with_timeframe` (= the former `with_timeframe_FULL`, now a theorem for every positive timeframe).
 -/
 namespace Hex.C11
 open Hex Hex.C03
@@ -105,11 +107,99 @@ theorem converted_once (done fresh : List (Candle F)) (hd : ∀ c ∈ done, c.ta
     findConvIndex (done ++ fresh) = done.length ∧ ∃ ext, haFold done fresh = done ++ ext :=
   ⟨findConvIndex_split done fresh hd hf, by obtain ⟨e, h, _⟩ := haFold_prefix fresh done; exact ⟨e, h⟩⟩
 
-/-- full-strength statement with a collapsing timeframe (NOT yet proved) -/
+/-- full-strength statement with a collapsing timeframe (proved below: `with_timeframe`) -/
 def with_timeframe_FULL (tf : Int) : Prop :=
   ∀ (init : List (Candle F)) (chunks : List (List (Candle F))), RawStream (init ++ chunks.flatten) →
     RawPlain (init ++ chunks.flatten) →
     runSchedule ({ tf := some tf, ha := true } : MgrCfg) init chunks
       = .ok { cfg := { tf := some tf, ha := true }, candles := haSpec (resample tf (init ++ chunks.flatten)) }
+
+omit [PyF F] in
+theorem rawHA_of {xs : List (Candle F)} (h : RawStream xs) (hp : RawPlain xs) : RawHA xs :=
+  ⟨h.stamped, fun c hc => ⟨hp c hc, h.plain c hc⟩, h.sorted⟩
+
+/-- **Every append schedule on a collapsing timeframe, from any starting size (including empty
+and one candle).**  After construction with `init` and appending the chunks one call at a time the
+candles indicators see are exactly the Heikin-Ashi left fold over the COLLAPSED RAW buckets of the
+whole stream (`resample tf`: right-closed, right-labelled OHLCV buckets, C03), and no call raises.
+Mechanics covered: `Candle.merge` restores the raw values of the re-opened newest bucket and clears
+its tag; `_find_conv_index` resumes right after the still-tagged buckets; the re-opened bucket is
+converted again from the same (still converted) predecessor. -/
+theorem schedule_tf (tf : Int) (htf : 0 < tf) (init : List (Candle F)) (chunks : List (List (Candle F)))
+    (h : RawStream (init ++ chunks.flatten)) (hp : RawPlain (init ++ chunks.flatten)) :
+    runSchedule (cfgTfHA tf) init chunks
+      = .ok { cfg := cfgTfHA tf, candles := haSpec (resample tf (init ++ chunks.flatten)) } := by
+  have hraw : RawHA (init ++ chunks.flatten) := rawHA_of h hp
+  unfold runSchedule Manager.init
+  have h0 := tasks_tf_ha_append tf htf [] init (by simpa using hraw.append_left)
+  simp only [resample, resampleR, List.foldl_nil, List.reverse_nil, haSpec_nil, List.nil_append] at h0
+  rw [h0]
+  simp only [bind, Except.bind]
+  suffices H : ∀ (chunks : List (List (Candle F))) (s : List (Candle F)), RawHA (s ++ chunks.flatten) →
+      chunks.foldlM (fun (m : Manager F) ch => m.append ch)
+          { cfg := cfgTfHA tf, candles := haSpec (resample tf s) }
+        = .ok { cfg := cfgTfHA tf, candles := haSpec (resample tf (s ++ chunks.flatten)) } from
+    H chunks init hraw
+  intro chunks
+  induction chunks with
+  | nil => intro s _; simp [List.foldlM, pure, Except.pure]
+  | cons ch rest ih =>
+    intro s hs
+    have hs' : RawHA ((s ++ ch) ++ rest.flatten) := by simpa [List.append_assoc] using hs
+    simp only [List.foldlM_cons, bind, Except.bind]
+    have happ : Manager.append ({ cfg := cfgTfHA tf, candles := haSpec (resample tf s) } : Manager F) ch
+        = .ok { cfg := cfgTfHA tf, candles := haSpec (resample tf (s ++ ch)) } := by
+      unfold Manager.append
+      by_cases hc : ch = []
+      · subst hc; simp
+      · have : ch.isEmpty = false := by cases ch <;> simp at hc ⊢
+        simp only [this, Bool.false_eq_true, if_false, tasks_tf_ha_append tf htf s ch hs'.append_left,
+          bind, Except.bind]
+        rfl
+    rw [happ]
+    have := ih (s ++ ch) hs'
+    simpa [List.append_assoc] using this
+
+/-- the former `with_timeframe_FULL`, for every positive timeframe -/
+theorem with_timeframe (tf : Int) (htf : 0 < tf) : with_timeframe_FULL (F := F) tf :=
+  fun init chunks h hp => schedule_tf tf htf init chunks h hp
+
+/-- **Converted exactly once per (re)opening, raw values recoverable – with a timeframe.**
+Every candle of the result is tagged and carries as `clean_values` the OHLCV and the (aligned)
+timestamp of the collapsed raw bucket at the same position. -/
+theorem tf_clean_values (tf : Int) (xs : List (Candle F)) :
+    List.Forall₂ (fun b z => z.tag = true ∧ z.ts = b.ts ∧ z.inds = [] ∧ z.subs = [] ∧
+        z.clean = some { o := b.o, h := b.h, l := b.l, c := b.c, v := b.v, ts := b.ts })
+      (resample tf xs) (haSpec (resample tf xs)) :=
+  (haSpec_rel (resample tf xs)).clean_values
+
+/-- merging a later raw candle into a converted bucket is merging it into the raw bucket: the
+bucket is reset to raw (tag cleared, no saved values) and will be converted again -/
+theorem merge_restores_raw (b x : Candle F) (p : Option (Candle F)) (hb : b.clean = none) :
+    (haCandle b p).merge x = b.merge x ∧ (b.merge x).tag = false ∧ (b.merge x).clean = none :=
+  ⟨merge_haCandle b x p hb, (untouched_merge b x).1, (untouched_merge b x).2⟩
+
+/-! ### remaining: timeframe + gap filling + Heikin-Ashi -/
+
+/-- full-strength statement with a collapsing timeframe AND `timeframe_fill` (NOT proved): the
+candles are the Heikin-Ashi fold over the gap-filled resampling.  (`spec` is the gap-filled
+bucket list: `fillMissing tf (resample tf stream) = .ok spec`.) -/
+def with_timeframe_fill_FULL (tf : Int) : Prop :=
+  ∀ (init : List (Candle F)) (chunks : List (List (Candle F))) (spec : List (Candle F)),
+    RawStream (init ++ chunks.flatten) → RawPlain (init ++ chunks.flatten) →
+    fillMissing tf (resample tf (init ++ chunks.flatten)) = .ok spec →
+    runSchedule ({ tf := some tf, fill := true, ha := true } : MgrCfg) init chunks
+      = .ok { cfg := { tf := some tf, fill := true, ha := true }, candles := haSpec spec }
+
+/-! ### non-vacuity -/
+
+example : RawStream C03.demo ∧ RawPlain C03.demo :=
+  ⟨⟨by decide, by decide, by decide⟩, by unfold RawPlain; decide⟩
+
+/-- the three-candle demo stream, appended one candle at a time from an EMPTY manager on a
+60-second timeframe, ends with two converted buckets stamped 120 and 180 -/
+example : (runSchedule (cfgTfHA 60) [] [[C03.demo[0]], [C03.demo[1]], [C03.demo[2]]]).toOption.map
+      (fun m => m.candles.map (fun c => (c.ts, c.tag)))
+    = some [(some 120, true), (some 180, true)] := by decide
 
 end Hex.C11
